@@ -25,6 +25,17 @@ from .c07 import mkcal, ctor_line
 LIN_TOL = 1e-9
 FILT_TOL = 1e-9        # model vs implementation for recursive filters (relative to the largest sample)
 
+# model vs implementation, new stimulus shapes (measured on the unchanged library, 4 seeds x 540 cases each):
+# band-limited click (naive inverse DFT of the model vs irfft): worst 4.0e-13 of full scale -> 1e-10;
+# wav playback is float32 arithmetic in the library (int16 -> unit range, normalisation, *= sf: at most ~6 float32
+# roundings of 6e-8 each, plus the float32 mean inside util.rms) against float64 in the model: worst 1.8e-7 -> 1e-6
+# (the same figure as the float32 level-linearity tolerance below); Cos2Envelope x tone: bit-identical -> tone's 1e-12.
+# chirp from its window samples: the model adds w**2 in list order, np.sum pairwise, and the phase is a cumulative sum of a
+# cumulative sum over up to 25 000 samples: worst 2.8e-11 of full scale over 4 seeds x 300 cases (median 0: boxcar) -> 1e-9.
+CHIRP_TOL = 1e-9
+BLCLICK_TOL = 1e-10
+WAV_TOL = 1e-6
+
 _WAV = {}
 
 
@@ -44,6 +55,28 @@ def wav_path(seed, dtype):
         wavfile.write(p, 20000, x)
         _WAV[key] = p
     return _WAV[key]
+
+
+def wav_raw(c):
+    """the samples stored in the case's wav file, or None when playback resamples (fs != file rate)"""
+    from scipy.io import wavfile
+    file_fs, raw = wavfile.read(wav_path(c['seed'], c['dtype']))
+    return np.asarray(raw) if file_fs == c['fs'] else None
+
+
+def blclick_geometry(c):
+    """(n, n_window, klo, khi, probe indices) of a band-limited click whose model line applies: even period
+    n = round(fs), window no longer than the period, a contiguous non-empty pass band"""
+    import random
+    fs = c['fs']
+    n, nw = int(round(fs)), int(round(c['win'] * fs))
+    freq = np.fft.rfftfreq(n, d=1 / fs)
+    idx = np.flatnonzero((freq >= c['flb']) & (freq < c['fub']))
+    if n % 2 or nw > n or nw < 1 or not len(idx) or not np.array_equal(idx, np.arange(idx[0], idx[-1] + 1)):
+        return None
+    r = random.Random(c['seed'])
+    probes = sorted({0, 1, nw - 1, nw // 2 - 1, nw // 2, (nw // 2 + 1) % nw} | {r.randrange(nw) for _ in range(12)})
+    return n, nw, int(idx[0]), int(idx[-1]) + 1, [p for p in probes if 0 <= p < nw]
 
 
 def chunks_of(c):
@@ -397,7 +430,9 @@ class C08(FloatSpec):
         'round-to-nearest satisfies — that IEEE conformance of NumPy is assumed, and checked bit-exactly by the oracle',
         'modelled, not verified: scipy.signal.lfilter = direct form II transposed recursion; RandomState.uniform = '
         'low + (high-low)*u on the unit draws; filter design routines (iirnotch, iirdesign, firwin2, lfilter_zi), '
-        'get_window, cumsum, irfft and wav reading are inputs (prototype cells), not modelled',
+        'get_window, cumsum (chirp prototype), the cosine-squared envelope samples (property C09) and the stored wav samples '
+        'are inputs (cells); csd_to_signal / irfft = the real inverse DFT of the C16 model; resampled wav playback '
+        '(resample_fft) is checked by the oracle only',
         'noise level definitions (0.5 dB on 1 s) are statistical statements checked on the seeds drawn, not theorems',
     ]
     ASSUMPTIONS = ['filters have a[0] = 1', 'sam_tone depth = 1 (the code refuses anything else)']
@@ -455,8 +490,38 @@ class C08(FloatSpec):
             proto = stim.chirp(fs, c['f0'], c['f1'], c['n'] / fs, 1.0, calibration=None, window=c['window'])
             sf = float(np.asarray(cal.get_mean_sf(c['f0'], c['f1'], L)))
             out.append(f"scaled {f2b(1.0)} {f2b(sf)} {fl(proto)}")
+            # the chirp itself from the window samples (cumulative sums, phase, normalisation are the model's)
+            from scipy import signal
+            out.append(f"chirp {f2b(fs)} {f2b(c['f0'])} {f2b(c['f1'])} {f2b(sf)} {fl(signal.get_window(c['window'], len(proto)))}")
         elif k in ('bbn', 'notch', 'bln', 'fir', 'shaped'):
             out.append(self.filt_line(c, cal, pol))
+        elif k == 'ramped':
+            # envelope cells from the real envelope code (its own law is C09); the model multiplies them with its tone
+            sf = sf_at(c['f'])
+            ef = stim.Cos2EnvelopeFactory(fs, duration=c['n'] / fs, rise_time=c['n'] / fs / 4,
+                                          input_factory=stim.SilenceFactory(fill_value=1))
+            off = 0
+            for n in chunks_of(c):
+                out.append(f"ramped {f2b(pol)} {f2b(sf)} {f2b(fs)} {f2b(c['f'])} {f2b(c['ph'])} {off} {fl(ef.next(n))}")
+                off += n
+        elif k == 'blclick':
+            g = blclick_geometry(c)
+            if g is not None:
+                n, nw, klo, khi, probes = g
+                freq = np.fft.rfftfreq(n, d=1 / fs)
+                from psiaudio import util
+                band_level = util.band_to_spectrum_level(L, khi - klo)
+                sf = float(np.mean(cal.get_sf(freq[klo:khi], band_level)))
+                out.append(f"blclick {n} {nw} {f2b(fs)} {f2b(sf)} {klo} {khi} {','.join(map(str, probes))}")
+        elif k == 'wav':
+            raw = wav_raw(c)
+            if raw is not None:
+                sf = sf_at(1e3)
+                if raw.dtype == np.float32:
+                    out.append(f"wav {c['norm']} {f2b(sf)} {fl(raw.astype(float))}")
+                else:
+                    ii = np.iinfo(raw.dtype)
+                    out.append(f"wavpcm {c['norm']} {f2b(sf)} {f2b(ii.min)} {f2b(ii.max)} {fl(raw.astype(float))}")
         return out
 
     def filt_line(self, c, cal, pol):
@@ -507,10 +572,25 @@ class C08(FloatSpec):
         cal = mkcal(c['cal'])
         k, L, pol = c['kind'], c['L'], c['pol']
         R = [('ok',)]
-        if k in ('ramped', 'blclick', 'wav'):
-            return R                                   # oracle only (envelope is C09's; irfft / wav are kernels)
-        w = build(c, L, pol, cal)
+        if k == 'wav' and wav_raw(c) is None:
+            return R                                   # resampled playback (resample_fft): oracle only
+        if k == 'blclick' and blclick_geometry(c) is None:
+            return R
+        w = np.asarray(build(c, L, pol, cal), dtype=float)
         full = float(np.max(np.abs(w))) if len(w) else 0.0
+        if k == 'ramped':
+            i = 0
+            for n in chunks_of(c):
+                R.append(vals(w[i:i + n], 1e-12, 1e-12 * full))
+                i += n
+            return R
+        if k == 'blclick':
+            probes = blclick_geometry(c)[4]
+            R.append(vals(w[probes], BLCLICK_TOL, BLCLICK_TOL * full))
+            return R
+        if k == 'wav':
+            R.append(vals(w, WAV_TOL, WAV_TOL * full))
+            return R
         if k in ('tone', 'tone_factory'):
             R.append(num(np.asarray(cal.get_sf(c['f'], L))))
             i = 0
@@ -530,6 +610,7 @@ class C08(FloatSpec):
             R.append(vals(w, 1e-12))
         elif k == 'chirp':
             R.append(vals(w, 1e-12, 1e-12 * full))
+            R.append(vals(w, CHIRP_TOL, CHIRP_TOL * full))
         else:
             t = LIN_TOLS.get(k, FILT_TOL)
             R.append(vals(w, t, t * full))
